@@ -18,6 +18,9 @@
 //	F                        loader = session.NewFromFile(path)
 //	C <k> <mt>               crash while writing: file := first k bytes of its content, mtime mt, new loader
 //	X <content> <mt>         foreign write of arbitrary bytes, mtime mt, new loader
+//	TR <k> <mt>              ANOTHER writer leaves the file cut to its first k bytes, mtime mt; the loader lives on
+//	G <key> <hash> <salt> <host> <mt>   another loader (second session.NewFromFile on the path) stores a session,
+//	                         mtime mt; the first loader lives on with its cache
 //	N <host>                 mtproto.NewMTProto(Config{AuthKeyFile: path, ServerHost: host}) - no network involved
 //	NS <host> <mt>           the same, then m.SaveSession(); new loader
 //	V <string>               only compares utf8.ValidString with the model's utf8_valid
@@ -38,6 +41,7 @@
 //	<id> <opindex> S ok <file content> | S err | S panic
 //	<id> <opindex> L ok <key> <hash> <salt> <host> | L nf | L err | L panic
 //	<id> <opindex> N ok <0|1> <key> <hash> <salt> <addr> | N err | N panic        (NS: ... | S ...)
+//	<id> <opindex> G ok <file content> | G err | G panic
 //	<id> <opindex> V <0|1>
 //	<id> <opindex> -
 //
@@ -234,6 +238,12 @@ func opS(s sess, mt int) []string {
 	return []string{"S", vc.Hex(s.key), vc.Hex(s.hash), saltHex(s.salt), vc.HexS(s.host), strconv.Itoa(mt)}
 }
 
+func opG(s sess, mt int) []string {
+	o := opS(s, mt)
+	o[0] = "G"
+	return o
+}
+
 const nShapes = 13
 
 // path shapes; the directory of a history is h<id> below the scratch directory
@@ -317,7 +327,9 @@ func gen(tier, out string) {
 		stat["histories"]++
 		parts := strings.SplitN(h.tag, "/", 2)
 		kind := parts[0]
-		if strings.HasPrefix(kind, "sweep") {
+		if strings.HasPrefix(kind, "sweeptear") {
+			kind = "sweep-foreign-tear"
+		} else if strings.HasPrefix(kind, "sweep") {
 			kind = "sweep"
 		}
 		stat["kind:"+kind]++
@@ -357,6 +369,28 @@ func gen(tier, out string) {
 		emit(h)
 		h = newH("corpus-client-save", k)
 		h.ops = [][]string{{"NS", vc.HexS("cfg.host:443"), "3"}, {"L"}, opS(real1, 3), {"L"}, {"NS", vc.HexS("other:1"), "3"}, {"L"}, {"N", vc.HexS("third:2")}}
+		emit(h)
+	}
+	for k := 0; k < 10; k++ {
+		// a long-lived loader and ANOTHER writer: torn file / complete foreign store, later and equal ticks
+		h := newH("corpus-foreign-tear-newer", k)
+		h.ops = [][]string{opS(real1, 5), {"L"}, {"TR", "200", "6"}, {"L"}, {"L"}, {"L"}, {"F"}, {"L"}, {"L"}, opS(real2, 6), {"L"}}
+		emit(h)
+		h = newH("corpus-foreign-tear-equal-tick", k)
+		h.ops = [][]string{opS(real1, 5), {"L"}, {"TR", "17", "5"}, {"L"}, {"L"}, {"F"}, {"L"}}
+		emit(h)
+		h = newH("corpus-foreign-store-newer", k)
+		h.ops = [][]string{opS(real1, 5), {"L"}, opG(real2, 6), {"L"}, {"L"}, {"F"}, {"L"}}
+		emit(h)
+		h = newH("corpus-foreign-store-equal-tick", k)
+		h.ops = [][]string{opS(real1, 5), {"L"}, opG(real2, 5), {"L"}, {"F"}, {"L"}}
+		emit(h)
+		h = newH("corpus-foreign-mixed", k)
+		h.ops = [][]string{opS(fixture, 5), {"L"}, opG(real1, 6), {"TR", "100", "7"}, {"L"}, {"L"}, opG(real2, 8), {"L"}, {"L"},
+			{"TR", "0", "9"}, {"L"}, {"L"}, {"N", vc.HexS("cfg")}}
+		emit(h)
+		h = newH("corpus-foreign-first", k)
+		h.ops = [][]string{{"TR", "3", "1"}, {"L"}, opG(fixture, 2), {"L"}, {"TR", "1", "3"}, {"L"}, {"L"}, {"F"}, {"L"}}
 		emit(h)
 	}
 	{
@@ -419,6 +453,20 @@ func gen(tier, out string) {
 				h.ops = [][]string{opS(real2, 7), {"L"}, opS(s, 7), {"C", strconv.Itoa(k), mt2}, {"L"}, {"NS", vc.HexS("cfg"), "7"}, {"L"}}
 			}
 			emit(h)
+			// the same cut made by ANOTHER writer while the loader lives on; repeated loads
+			ks := strconv.Itoa(k)
+			h = newH(fmt.Sprintf("sweeptear%d", i), (i+k+3)%10)
+			switch k % 4 {
+			case 0:
+				h.ops = [][]string{opS(s, 7), {"L"}, {"TR", ks, "8"}, {"L"}, {"L"}, {"L"}, {"F"}, {"L"}}
+			case 1:
+				h.ops = [][]string{opS(s, 7), {"L"}, {"TR", ks, "7"}, {"L"}, {"L"}, {"F"}, {"L"}, {"L"}}
+			case 2:
+				h.ops = [][]string{opS(real2, 7), {"L"}, opG(s, 8), {"L"}, {"TR", ks, "9"}, {"L"}, {"L"}, {"N", vc.HexS("cfg")}}
+			default:
+				h.ops = [][]string{opS(s, 7), {"TR", ks, "8"}, {"L"}, {"L"}, opS(s, 8), {"L"}}
+			}
+			emit(h)
 		}
 	}
 
@@ -455,14 +503,40 @@ func gen(tier, out string) {
 		nops := 2 + r.Intn(13)
 		for j := 0; j < nops; j++ {
 			switch x := r.Intn(100); {
-			case x < 30:
+			case x < 26:
 				s := pool[r.Intn(len(pool))]
 				curLen = len(s.render())
 				h.ops = append(h.ops, opS(s, 0))
 				h.ops[len(h.ops)-1][5] = tick()
-			case x < 65:
+			case x < 32:
+				// another loader stores; two times out of three on a strictly later tick
+				s := pool[r.Intn(len(pool))]
+				curLen = len(s.render())
+				h.ops = append(h.ops, opG(s, 0))
+				if r.Intn(3) != 0 {
+					mt++
+					h.ops[len(h.ops)-1][5] = strconv.Itoa(mt)
+				} else {
+					h.ops[len(h.ops)-1][5] = tick()
+				}
+			case x < 38:
+				// another writer leaves a cut file; the loader lives on
+				kk := 0
+				if curLen > 0 {
+					kk = r.Intn(curLen)
+				}
+				curLen = kk
+				ts := ""
+				if r.Intn(3) != 0 {
+					mt++
+					ts = strconv.Itoa(mt)
+				} else {
+					ts = tick()
+				}
+				h.ops = append(h.ops, []string{"TR", strconv.Itoa(kk), ts})
+			case x < 67:
 				h.ops = append(h.ops, []string{"L"})
-			case x < 73:
+			case x < 74:
 				h.ops = append(h.ops, []string{"F"})
 			case x < 81:
 				kk := 0
@@ -726,6 +800,36 @@ func (rn *runner) runHistory(hd []string, setup [][]string, ops [][]string) {
 			}
 			l = session.NewFromFile(path)
 			rn.impl.Line(id, idx, "-")
+		case "TR":
+			if d, err := os.ReadFile(path); err == nil {
+				k := atoi(op[1])
+				if k > len(d) {
+					k = len(d)
+				}
+				if err := os.WriteFile(path, d[:k], 0o600); err != nil {
+					fatal("tear write: %v", err)
+				}
+				rn.setMtime(path, atoi(op[2]))
+			}
+			rn.impl.Line(id, idx, "-")
+		case "G":
+			s := parseSess(op)
+			rn.validate(s)
+			addJ(s)
+			other := session.NewFromFile(path)
+			var err error
+			p, _ := vc.Catch(func() {
+				err = other.Store(&session.Session{Key: s.key, Hash: s.hash, Salt: int64(s.salt), Hostname: s.host})
+			})
+			switch {
+			case p:
+				rn.impl.Line(id, idx, "G", "panic")
+			case err != nil:
+				rn.impl.Line(id, idx, "G", "err")
+			default:
+				rn.impl.Line(id, idx, "G", "ok", readFileHex(path))
+				rn.setMtime(path, atoi(op[5]))
+			}
 		case "X":
 			if kind == "D" {
 				if err := os.WriteFile(path, vc.UnHex(op[1]), 0o600); err != nil {
